@@ -32,6 +32,11 @@ mut("c01-option-some-none-swapped-hashset-len", ["C01"], "HashSet encoded with o
     [(ENCRS, "        e.array(self.len() as u64)?;\n        for x in self {\n            x.encode(e, ctx)?\n        }\n        Ok(())\n    }\n}\n\n#[cfg(feature = \"std\")]\nimpl<C, T, S> CborLen<C> for std::collections::HashSet<T, S>",
              "        e.array(self.len() as u64)?;\n        for x in self.iter().skip(if self.len() == 3 { 1 } else { 0 }) {\n            x.encode(e, ctx)?\n        }\n        if self.len() == 3 { e.null()?; }\n        Ok(())\n    }\n}\n\n#[cfg(feature = \"std\")]\nimpl<C, T, S> CborLen<C> for std::collections::HashSet<T, S>")])
 
+mut("c01-token-map-as-array", ["C01"], "Token::Map(n) encoded with an array head",
+    [(TOK, "Token::Map(val)    => e.map(val)?,", "Token::Map(val)    => e.array(val)?,")])
+mut("c01-token-decode-beginmap", ["C01"], "Decode for Token returns BeginArray for an indefinite map head",
+    [(TOK, "Type::MapIndef     => { skip_byte(d); Ok(Token::BeginMap)    }", "Type::MapIndef     => { skip_byte(d); Ok(Token::BeginArray)  }")])
+
 # ---- C02 ----
 mut("c02-heap-prealloc", ["C02"], "BinaryHeap pre-allocates the declared length",
     [(DECRS, "let mut v = alloc::collections::BinaryHeap::new();", "let mut v = alloc::collections::BinaryHeap::with_capacity(iter.size_hint().0.max(d_len_hint));"),
